@@ -84,10 +84,12 @@ func (r *Ref) Step(e Event) Expect {
 	switch e.K {
 	case "T":
 		r.Now += e.D
-	case "E":
-		// a client read picked the replica (only possible while it is up) and its pool
-		// answered with a connection error
-		if r.ReplicaUp && r.Cfg.Policy != "none" {
+	case "E", "L":
+		// E: a client read picked the replica through GetSlaveConn (only possible while it is
+		// up) and its pool answered with a connection error. L: a session that picked the
+		// replica earlier gets its connection error now, whatever the replica's status is.
+		// Both record a connection error; the breaker fires when the window reaches M.
+		if (e.K == "L" || r.ReplicaUp) && r.Cfg.Policy != "none" {
 			r.Errs = append(r.Errs, r.Now)
 			in := int64(0)
 			for _, t := range r.Errs {
@@ -97,15 +99,32 @@ func (r *Ref) Step(e Event) Expect {
 			}
 			if r.Cfg.W > 0 && r.Cfg.M > 0 && in >= r.Cfg.M {
 				x.Fire = true
+				wasUp := r.ReplicaUp
+				// a fuse marks the replica down; on a replica that is already down it changes no status
 				x.ReplicaMayUp, x.ReplicaMayDown = false, true
 				x.ReplicaRule = "down:breaker_fired"
-				r.Fused, r.LastFuse, r.FusedDown = true, r.Now, true
-				if r.Cfg.Policy == "gradual" {
-					if r.Now-r.LastRecovery <= 2*PingPeriod {
-						r.N++
-						r.Need = penalty(r.N)
-					} else {
-						r.N = 3
+				if !wasUp {
+					x.ReplicaRule = "unchanged:breaker_fired_on_down_replica"
+				}
+				r.FusedDown = true
+				switch r.Cfg.Policy {
+				case "hard":
+					// "the configured cool-down since its LATEST fuse": every fuse counts,
+					// also one that hits a replica that is already down
+					r.Fused, r.LastFuse = true, r.Now
+				case "gradual":
+					// node_fuse.go documents UpdateFuseTime / the bad-recovery bookkeeping as
+					// "called when the node goes StatusUp -> StatusDown": a fuse on a replica that
+					// is already down is not a new failure after a recovery and changes nothing
+					r.Fused = true
+					if wasUp {
+						r.LastFuse = r.Now
+						if r.Now-r.LastRecovery <= 2*PingPeriod {
+							r.N++
+							r.Need = penalty(r.N)
+						} else {
+							r.N = 3
+						}
 					}
 				}
 			}
